@@ -50,7 +50,9 @@ func dpAlphabet() []dpBehav {
 		B("crit-ext", func(b *crlSpec) { b.CritExt = true }, false, nil),
 		B("idp-critical", func(b *crlSpec) { b.IDP = true }, false, nil),
 		B("entry-crit-matching", func(b *crlSpec) { b.Entries = []entrySpec{{Match: true, Reason: 8, RTime: 1, Inv: "none", Crit: true}} }, false, nil),
-		B("entry-crit-other", func(b *crlSpec) { b.Entries = []entrySpec{{Match: false, Reason: 1, RTime: 1, Inv: "none", Crit: true}} }, false, nil),
+		B("entry-crit-other", func(b *crlSpec) {
+			b.Entries = []entrySpec{{Match: false, Reason: 1, RTime: 1, Inv: "none", Crit: true}}
+		}, false, nil),
 		B("base-nonumber", func(b *crlSpec) { b.Number = -1 }, false, nil),
 		{"fetch-fail", func() crlDelivery { return crlDelivery{FetchErr: true} }},
 		B("delta-clean", nil, true, nil),
